@@ -81,6 +81,9 @@ def run_check(P, tier, seed, replay=None):
         bad = audit_sources()
         for b in bad:
             broken.append(("forbidden-vernacular", b, ""))
+        # property-specific ties to the source that are regenerated on every run (e.g. the panic-site inventory)
+        for kind_, detail_ in getattr(P, "obligations", lambda: [])():
+            broken.append((kind_, detail_, ""))
         rd = build_driver(driver_name)
         driver = driver_bin(driver_name) if rd.ok else None
         if not rd.ok:
